@@ -419,6 +419,26 @@ def model_family(name, per_obs=True, flags="exclusive"):
         draws = {"coef": lambda r: jnp.asarray([r.uniform(-1, 1) for _ in range(4)], jnp.float32),
                  "tau2": lambda r: jnp.float32(r.uniform(0.2, 2.0))}
         return model, recipe, draws, {}
+    if name == "legacy_pit":
+        # the legacy helpers: a probability integral transform of one parameter feeds the mean of the response
+        m = lsl.Param(jnp.float32(0.3), lsl.Dist(tfd.Normal, loc=0.0, scale=2.0), name="m")
+        z = lsl.Param(jnp.float32(0.1), lsl.Dist(tfd.Normal, loc=m, scale=1.0), name="z")
+        u = lsl.PIT(z)
+        y = lsl.Obs(jnp.asarray([0.4, 0.9, 0.6], jnp.float32), lsl.Dist(tfd.Normal, loc=u, scale=0.5), name="y")
+        for v in (m, z, y):
+            v.dist_node.per_obs = per_obs
+        model = lsl.GraphBuilder().add(y).build_model()
+
+        def recipe(v):
+            uu = tfd.Normal(v["m"], 1.0).cdf(v["z"])
+            return [
+                {"name": "m", "v": _f(tfd.Normal(0.0, 2.0).log_prob(v["m"])), "has_var": True, "observed": False, "parameter": True},
+                {"name": "z", "v": _f(tfd.Normal(v["m"], 1.0).log_prob(v["z"])), "has_var": True, "observed": False, "parameter": True},
+                {"name": "y", "v": _f(tfd.Normal(uu, 0.5).log_prob(jnp.asarray([0.4, 0.9, 0.6], jnp.float32))), "has_var": True,
+                 "observed": True, "parameter": False},
+            ]
+        draws = {"m": lambda r: jnp.float32(r.uniform(-1, 1)), "z": lambda r: jnp.float32(r.uniform(-1.5, 1.5))}
+        return model, recipe, draws, {}
     if name == "hier_vector":
         m0 = lsl.param(jnp.float32(0.0), lsl.Dist(tfd.Normal, loc=0.0, scale=3.0), name="m0")
         s0 = lsl.param(jnp.float32(1.0), lsl.Dist(tfd.Exponential, rate=1.0), name="s0")
@@ -487,7 +507,7 @@ def model_family(name, per_obs=True, flags="exclusive"):
     raise KeyError(name)
 
 
-FAMILY = ["distreg", "distreg_smallscale", "auto_transformed", "linreg_flag", "linreg", "linreg_user_ll", "linreg_user_ll_pointwise", "linreg_both_flags", "linreg_noflags", "transformed", "mvn_degen", "hier_vector"]
+FAMILY = ["distreg", "distreg_smallscale", "auto_transformed", "linreg_flag", "linreg", "linreg_user_ll", "linreg_user_ll_pointwise", "linreg_both_flags", "linreg_noflags", "transformed", "mvn_degen", "hier_vector", "legacy_pit"]
 
 
 def numeric_trace(rng, name, nassign=3):
